@@ -4,6 +4,7 @@ package c15
 import (
 	"context"
 	"encoding/json"
+	"sync"
 
 	jsonrpc "github.com/filecoin-project/go-jsonrpc"
 
@@ -11,6 +12,7 @@ import (
 )
 
 type H struct {
+	mu      sync.Mutex
 	ctxs    map[int]context.Context
 	release chan struct{}
 	exited  map[int]int
@@ -18,13 +20,20 @@ type H struct {
 }
 
 func (h *H) wait(ctx context.Context, tag int) {
+	h.mu.Lock()
 	h.ctxs[tag] = ctx
+	h.mu.Unlock()
 	<-ctx.Done()
 	if h.linger[tag] {
 		<-h.release
 	}
+	h.mu.Lock()
 	h.exited[tag]++
+	h.mu.Unlock()
 }
+
+// Quick answers at once.
+func (h *H) Quick(ctx context.Context, tag int) (int, error) { return tag, nil }
 
 // Unary answers (late) after its context ended.
 func (h *H) Unary(ctx context.Context, tag int) (int, error) { h.wait(ctx, tag); return tag, nil }
@@ -104,4 +113,32 @@ func HarnessConnEnd() {
 		pc.Abort()
 	}
 	verif.Reach("conn-end-done")
+}
+
+// HarnessStalledWriter: the peer stops reading, so a response write stalls while
+// holding the write lock; then the server shuts the connection down (context
+// cancel). The connection loop must still exit, close the socket and let every
+// goroutine go.
+func HarnessStalledWriter() {
+	h := &H{ctxs: map[int]context.Context{}, release: make(chan struct{}), exited: map[int]int{}, linger: map[int]bool{}}
+	srv := jsonrpc.NewServer()
+	srv.Register("H", h)
+	base, cancelBase := context.WithCancel(context.Background())
+	defer cancelBase()
+	pc := verif.DialRaw(srv, base)
+	// with the engine's connection capacity bound (wscap=1) the second response cannot be flushed
+	send(pc, map[string]interface{}{"jsonrpc": "2.0", "id": 1, "method": "H.Quick", "params": []interface{}{0}})
+	send(pc, map[string]interface{}{"jsonrpc": "2.0", "id": 2, "method": "H.Quick", "params": []interface{}{1}})
+	send(pc, map[string]interface{}{"jsonrpc": "2.0", "id": 3, "method": "H.Unary", "params": []interface{}{2}})
+	verif.Quiesce()
+	cancelBase()
+	verif.Quiesce()
+	verif.Assert(h.ctxs[2] != nil && h.ctxs[2].Err() != nil, "connection-end-cancels-handler-context")
+	left := verif.LeftoverLib()
+	if left != 0 {
+		verif.Class("leftover=" + verif.LeftoverDesc())
+	}
+	verif.Assert(left == 0, "no-library-goroutine-retained-for-dead-connection")
+	pc.Abort()
+	verif.Reach("stalled-writer-done")
 }
